@@ -607,6 +607,7 @@ func (p *Process) StartWith(ctx context.Context, element schema.FlowNodeInterfac
 		// itself), subscribed before the start event is triggered so that it
 		// cannot miss the start event's traces.
 		p.monitorOnce.Do(func() {
+			verifAt("process.monitor.create")
 			sender := p.tracer.RegisterSender()
 			go p.ceaseFlowMonitor(p.subTracer)(ctx, sender)
 		})
